@@ -1,3 +1,4 @@
+#![feature(pattern)]
 #![allow(unused, non_snake_case, non_camel_case_types)]
 use vstd::prelude::*;
 use vstd::std_specs::cmp::*;
